@@ -375,6 +375,7 @@ type BFSCase[St any, Ev any] struct {
 }
 
 type bfsNode[St any, Ev any, N any] struct {
+	startIdx int
 	start St
 	path  []Ev
 	dev   int
@@ -427,7 +428,7 @@ func BFS[St any, Ev any, N Node[Ev]](r *Report, spec BFSSpec[St, Ev, N]) {
 	}
 	seen := map[string]struct{}{}
 	var frontier []*bfsNode[St, Ev, N]
-	for _, s := range spec.Starts {
+	for si, s := range spec.Starts {
 		n := spec.New(s)
 		if spec.Invariant != nil {
 			if f := spec.Invariant(n); f != nil {
@@ -439,7 +440,7 @@ func BFS[St any, Ev any, N Node[Ev]](r *Report, spec BFSSpec[St, Ev, N]) {
 			continue
 		}
 		seen[k] = struct{}{}
-		node := &bfsNode[St, Ev, N]{start: s}
+		node := &bfsNode[St, Ev, N]{start: s, startIdx: si}
 		if spec.Save != nil {
 			node.snap, node.has = spec.Save(n), true
 		}
@@ -470,17 +471,22 @@ func BFS[St any, Ev any, N Node[Ev]](r *Report, spec BFSSpec[St, Ev, N]) {
 			wg.Add(1)
 			go func() {
 				defer wg.Done()
+				// one scratch instance per start state: start states may differ in parts of the machine that a
+				// snapshot does not carry
+				scratches := map[int]N{}
 				var scratch N
-				haveScratch := false
 				var myTrans int64
 				defer func() { atomic.AddInt64(&trans, myTrans) }()
 				for i := range idx {
 					parent := frontier[i]
 					var base N
 					if parent.has {
-						if !haveScratch {
-							scratch, haveScratch = spec.New(parent.start), true
+						sc, ok := scratches[parent.startIdx]
+						if !ok {
+							sc = spec.New(parent.start)
+							scratches[parent.startIdx] = sc
 						}
+						scratch = sc
 						spec.Load(scratch, parent.snap)
 						base = scratch
 					} else {
@@ -534,7 +540,7 @@ func BFS[St any, Ev any, N Node[Ev]](r *Report, spec BFSSpec[St, Ev, N]) {
 							}
 							path := append(append(make([]Ev, 0, len(parent.path)+1), parent.path...), ev)
 							c := child{key: key, path: path}
-							c.node = &bfsNode[St, Ev, N]{start: parent.start, path: path, dev: dev}
+							c.node = &bfsNode[St, Ev, N]{start: parent.start, startIdx: parent.startIdx, path: path, dev: dev}
 							if spec.Save != nil {
 								c.node.snap, c.node.has = spec.Save(n), true
 							}
